@@ -127,6 +127,8 @@ func (c *OCSPRevocationChecker) parseOcspResponse(certCandidates []*core.Certifi
 func (c *OCSPRevocationChecker) Provision(ocspConfig *config.OCSPConfig, logger *zap.Logger) error {
 	c.ocspConfig = ocspConfig
 	c.logger = logger
+	//the cache table is looked up once here, handshakes run concurrently and must not assign the field
+	c.cache = cache2go.Cache("ocsp_client")
 	return nil
 }
 
@@ -187,8 +189,6 @@ func (c *OCSPRevocationChecker) filterHTTPOCSPServers(ocspServerList []string) [
 }
 
 func (c *OCSPRevocationChecker) tryGetResponseFromCache(cacheKey string) (*core.RevocationStatus, error) {
-	c.cache = cache2go.Cache("ocsp_client")
-
 	// Let's retrieve the item from the cache.
 	res, err := c.cache.Value(cacheKey)
 	if err == nil {
